@@ -764,6 +764,8 @@ def families(tier):
     for nm, tv in (('all-in', (0.5, 0.5, 0.5, 0.5)), ('first-off-self', (-0.25, 0.5, 0.5, 0.5)), ('second-off-other', (0.5, 0.5, 0.5, 1.5)),
                    ('none-and-in', (None, 0.5, 0.25, 0.75)), ('ends', (0.0, 1.0, 1.0, 0.0))):
         fams.append(('arc-arc-circles-%s' % nm, 'vf.props.c11arcarc', 'fam_arc_arc_circles', {'tvals': tv}))
+    for dg in (1, 2, 3):
+        fams.append(('arc-bezier-root-polynomial-deg%d' % dg, 'vf.props.c11arcarc', 'fam_arc_bezier_polynomial', {'deg': dg}))
     for sg in (1, -1):
         fams.append(('arc-arc-circles-complete%s' % ('+' if sg > 0 else '-'), 'vf.props.c11arcarc', 'fam_arc_arc_circles', {'mode': 'complete', 'sign': sg}))
     for sg in (1, -1):
